@@ -44,6 +44,9 @@ def is_managed_leaf(c, tid):
     return False
 
 
+LEAF_TY = {}      # (crate id, label) -> type id of the managed leaf, filled by components()
+
+
 def components(c, tid, managed_adts, prefix=(), depth=0):
     """managed components of a (field) type: list of label tuples.
     Descends through std containers and through workspace ADTs that have no GcManaged impl of their
@@ -53,6 +56,7 @@ def components(c, tid, managed_adts, prefix=(), depth=0):
     t = c.ty(tid)
     k = t['k']
     if is_managed_leaf(c, tid):
+        LEAF_TY[(id(c), prefix)] = tid
         return [prefix]
     if k == 'adt':
         n = t['n']
@@ -354,6 +358,9 @@ def r1(rep, w):
                 if key in ok_table:
                     used_exc.add(key)
                     r.ok(key + ' (untraced, justified: %s)' % ok_table[key]['why'], sample=False)
+                elif c.tstr(LEAF_TY.get((id(c), lab), -1)) in ('memory::Gc<object::ObjString>',) if (id(c), lab) in LEAF_TY else False:
+                    # whichever struct the handle sits in: what it points to is never reclaimed (premise checked by R1s)
+                    r.ok(key + ' (untraced, justified: immortal interned string (rule R1s))', sample=False)
                 else:
                     r.bad(key, 'managed edge is followed neither by mark nor by blacken: an object reachable '
                           'only through it is reclaimed at the next collection', f.loc())
